@@ -182,6 +182,14 @@ def replay_known(ctx, binp):
         if kv.get("starved") == "true" or (kv.get("client_in_flight_count", "0") != "0" and kv.get("in_flight_map") == "0"):
             report(ctx, KEY_LEAK, "empty_races_delivery: " + " ".join("%s=%s" % x for x in sorted(kv.items())),
                    open(os.path.join(ROOT, "corpus", "C08", "known", "empty_races_delivery.sched")).read())
+        elif kv.get("heap") is not None and kv.get("heap") != kv.get("in_flight_map"):
+            # F48 (map insert + heap push one critical section): once the delivery and the Empty have both returned the
+            # heap holds exactly the in-flight messages (Props.C08.map_heap_agree_at_quiescence); the pre-F48 shape leaves
+            # the zombie entry of Props.C08.zombieSchedule
+            obs = " ".join("%s=%s" % x for x in sorted(kv.items()))
+            ctx.violation("heap-map-differ:empty_races_delivery", "empty_races_delivery: " + obs,
+                          open(os.path.join(ROOT, "corpus", "C08", "known", "empty_races_delivery.sched")).read() +
+                          "# observed: " + obs + "\n")
     for name in ("fin_races_empty_count", "req_races_empty_count"):
         rc, kv, out = run_sched(ctx, binp, name, timeout=90)
         res[name] = kv or {"error": out[-300:]}
